@@ -27,12 +27,27 @@ func rejectAmbiguousKeys(src interface{}, target reflect.Type) {
 	}
 	switch target.Kind() {
 	case reflect.Struct:
-		if value.Kind() != reflect.Map || value.Type().Key().Kind() != reflect.String {
+		if value.Kind() != reflect.Map {
+			return
+		}
+		// the decoder takes maps keyed by strings and maps keyed by interface{} (as YAML decoders build them), of the latter
+		// it matches the keys that hold a string
+		keyKind := value.Type().Key().Kind()
+		if keyKind != reflect.String && keyKind != reflect.Interface {
 			return
 		}
 		keys := make([]string, 0, value.Len())
+		mapKeys := make(map[string]reflect.Value, value.Len())
 		for _, k := range value.MapKeys() {
-			keys = append(keys, k.String())
+			name := k
+			if keyKind == reflect.Interface {
+				name = k.Elem()
+			}
+			if name.Kind() != reflect.String {
+				continue
+			}
+			keys = append(keys, name.String())
+			mapKeys[name.String()] = k
 		}
 		sort.Strings(keys)
 		seen := make(map[string]string, len(keys))
@@ -46,7 +61,7 @@ func rejectAmbiguousKeys(src interface{}, target reflect.Type) {
 		for i := 0; i < target.NumField(); i++ {
 			field := target.Field(i)
 			if key, ok := seen[foldKey(field.Name)]; ok {
-				rejectAmbiguousKeys(value.MapIndex(reflect.ValueOf(key).Convert(value.Type().Key())).Interface(), field.Type)
+				rejectAmbiguousKeys(value.MapIndex(mapKeys[key]).Interface(), field.Type)
 			}
 		}
 	case reflect.Slice, reflect.Array:
